@@ -354,4 +354,191 @@ theorem rowMajor_head_mul (a : Nat) (ns : List Nat) :
     (rowMajor (a :: ns)).getD 0 0 * (a :: ns).getD 0 0 = prodL (a :: ns) := by
   simp [rowMajor, prodL, Nat.mul_comm]
 
+/-! ## mixed-radix digits -/
+
+/-- `pos / stride_k % n_k` for every axis, strides row-major -/
+def digits : List Nat → Nat → List Nat
+  | [], _ => []
+  | n :: ns, pos => (pos / prodL ns % n) :: digits ns pos
+
+/-- `Σ idx_k * stride_k`, strides row-major -/
+def flat : List Nat → List Nat → Nat
+  | _ :: ns, i :: is => i * prodL ns + flat ns is
+  | _, _ => 0
+
+/-- a multi-index inside the coefficient grid -/
+def InBox (idx ns : List Nat) : Prop := idx.length = ns.length ∧ ∀ k < ns.length, idx.getD k 0 < ns.getD k 0
+
+theorem inBox_cons {i n : Nat} {is ns : List Nat} : InBox (i :: is) (n :: ns) ↔ i < n ∧ InBox is ns := by
+  constructor
+  · rintro ⟨hl, h⟩
+    refine ⟨by simpa using h 0 (by simp), by simpa using hl, ?_⟩
+    intro k hk
+    simpa using h (k+1) (by simpa using hk)
+  · rintro ⟨hi, hl, h⟩
+    refine ⟨by simp [hl], ?_⟩
+    intro k hk
+    cases k with
+    | zero => simpa using hi
+    | succ k => simpa using h k (by simpa using hk)
+
+theorem digits_length (ns : List Nat) (pos : Nat) : (digits ns pos).length = ns.length := by
+  induction ns with
+  | nil => rfl
+  | cons _ ns ih => simp [digits, ih]
+
+theorem digit_shift (s n M i r : Nat) (h : s * n ∣ M) : (M * i + r) / s % n = r / s % n := by
+  obtain ⟨q, rfl⟩ := h
+  rcases Nat.eq_zero_or_pos s with rfl | hs
+  · simp
+  · have : s * n * q * i + r = s * (n * (q * i)) + r := by
+      simp only [Nat.mul_assoc]
+    rw [this, Nat.mul_add_div hs, Nat.mul_add_mod]
+
+theorem digits_shift (ns : List Nat) (M i r : Nat) (h : prodL ns ∣ M) :
+    digits ns (M * i + r) = digits ns r := by
+  induction ns with
+  | nil => rfl
+  | cons n ns ih =>
+    simp only [digits, prodL] at h ⊢
+    rw [digit_shift _ _ _ _ _ (by rwa [Nat.mul_comm] at h), ih (Dvd.dvd.trans (Dvd.intro_left _ rfl) h)]
+
+theorem flat_lt : ∀ (idx ns : List Nat), InBox idx ns → flat ns idx < prodL ns
+  | [], [], _ => by simp [flat, prodL]
+  | [], _ :: _, h => by simp [InBox] at h
+  | _ :: _, [], h => by simp [InBox] at h
+  | i :: is, n :: ns, h => by
+    obtain ⟨hi, hr⟩ := inBox_cons.1 h
+    have ih := flat_lt is ns hr
+    simp only [flat, prodL]
+    calc i * prodL ns + flat ns is < i * prodL ns + prodL ns := by omega
+      _ = (i + 1) * prodL ns := by rw [Nat.add_mul, Nat.one_mul]
+      _ ≤ n * prodL ns := Nat.mul_le_mul_right _ hi
+
+theorem digits_flat : ∀ (idx ns : List Nat), InBox idx ns → digits ns (flat ns idx) = idx
+  | [], [], _ => rfl
+  | [], _ :: _, h => by simp [InBox] at h
+  | _ :: _, [], h => by simp [InBox] at h
+  | i :: is, n :: ns, h => by
+    obtain ⟨hi, hr⟩ := inBox_cons.1 h
+    have hlt := flat_lt is ns hr
+    have ih := digits_flat is ns hr
+    simp only [flat, digits]
+    have hP : 0 < prodL ns := by omega
+    congr 1
+    · rw [Nat.mul_comm, Nat.mul_add_div hP, Nat.div_eq_of_lt hlt, Nat.add_zero, Nat.mod_eq_of_lt hi]
+    · rw [Nat.mul_comm, digits_shift ns _ _ _ (Nat.dvd_refl _), ih]
+
+theorem flat_digits : ∀ (ns : List Nat) (pos : Nat), pos < prodL ns → flat ns (digits ns pos) = pos
+  | [], pos, h => by simp only [prodL] at h; simp only [flat]; omega
+  | n :: ns, pos, h => by
+    simp only [prodL] at h
+    simp only [flat, digits]
+    have hP : 0 < prodL ns := by
+      rcases Nat.eq_zero_or_pos (prodL ns) with h0 | h0
+      · rw [h0] at h; omega
+      · exact h0
+    have h1 : pos / prodL ns < n := by
+      rw [Nat.div_lt_iff_lt_mul hP]; exact h
+    have h2 : digits ns pos = digits ns (pos % prodL ns) := by
+      conv_lhs => rw [← Nat.div_add_mod pos (prodL ns)]
+      exact digits_shift ns _ _ _ (Nat.dvd_refl _)
+    rw [Nat.mod_eq_of_lt h1, h2, flat_digits ns _ (Nat.mod_lt _ hP)]
+    rw [Nat.mul_comm]; exact Nat.div_add_mod _ _
+
+theorem digits_inBox : ∀ (ns : List Nat) (pos : Nat), 0 < prodL ns → InBox (digits ns pos) ns
+  | [], _, _ => by simp [InBox, digits]
+  | n :: ns, pos, h => by
+    simp only [prodL] at h
+    have hn : 0 < n := Nat.pos_of_mul_pos_right h
+    have hP : 0 < prodL ns := Nat.pos_of_mul_pos_left h
+    simp only [digits]
+    exact inBox_cons.2 ⟨Nat.mod_lt _ hn, digits_inBox ns pos hP⟩
+
+/-! ## the position formula of the relocation loop -/
+
+/-- `Σ d_i * w_i` -/
+def wsum : List Nat → List Nat → Nat
+  | a :: as, b :: bs => a * b + wsum as bs
+  | _, _ => 0
+
+theorem flat_eq_wsum : ∀ (ns idx : List Nat), flat ns idx = wsum idx (rowMajor ns)
+  | [], [] => rfl
+  | [], _ :: _ => rfl
+  | _ :: _, [] => rfl
+  | _ :: ns, i :: is => by simp [flat, wsum, rowMajor, flat_eq_wsum ns is]
+
+theorem npos_eq_wsum (ts : List Nat) (pos : Nat) : ∀ (ns ks : List Nat), ks.length = ns.length →
+    npos ts (rowMajor ns) ns ks pos = wsum (digits ns pos) (ks.map fun k => ts.getD k 0)
+  | [], [], _ => rfl
+  | [], _ :: _, h => by simp at h
+  | _ :: _, [], h => by simp at h
+  | n :: ns, k :: ks, h => by
+    simp only [rowMajor, npos, digits, List.map_cons, wsum]
+    rw [npos_eq_wsum ts pos ns ks (by simpa using h)]
+
+theorem wsum_eq_sum : ∀ (n : Nat) (d w : List Nat), d.length = n → w.length = n →
+    wsum d w = ((List.range n).map fun i => d.getD i 0 * w.getD i 0).sum
+  | 0, [], [], _, _ => rfl
+  | n+1, a :: d, b :: w, hd, hw => by
+    rw [List.range_succ_eq_map, List.map_cons, List.map_map, List.sum_cons, wsum,
+      wsum_eq_sum n d w (by simpa using hd) (by simpa using hw)]
+    rfl
+  | 0, _ :: _, _, h, _ => by simp at h
+  | 0, [], _ :: _, _, h => by simp at h
+  | _+1, [], _, h, _ => by simp at h
+  | _+1, _ :: _, [], _, h => by simp at h
+
+theorem map_range_getD {α} (g : Nat → α) (p : List Nat) :
+    (List.range p.length).map (fun k => g (p.getD k 0)) = p.map g := by
+  apply List.ext_getElem?
+  intro i
+  by_cases hi : i < p.length
+  · simp [List.getElem?_range, hi, List.getD_eq_getElem?_getD]
+  · simp [hi, List.getElem?_eq_none (Nat.le_of_not_lt hi)]
+
+/-- re-indexing `Σ_i d_i·w[ip_i] = Σ_k d[p_k]·w_k` along the permutation -/
+theorem wsum_reindex {n : Nat} {p ip : List Nat} (hp : IsPerm n p) (hipl : ip.length = n) (hinv : Inv n p ip)
+    (d w : List Nat) (hd : d.length = n) (hw : w.length = n) :
+    wsum d (ip.map fun k => w.getD k 0) = wsum (gather 0 d p) w := by
+  have hpl := hp.length
+  rw [wsum_eq_sum n _ _ hd (by simpa using hipl), wsum_eq_sum n _ _ (by simp [gather_length, hpl]) hw]
+  let g : Nat → Nat := fun i => d.getD i 0 * w.getD (ip.getD i 0) 0
+  have h1 : ((List.range n).map fun i => d.getD i 0 * (ip.map fun k => w.getD k 0).getD i 0)
+      = (List.range n).map g := by
+    apply List.map_congr_left
+    intro i hi
+    have hi' : i < ip.length := by simpa [hipl] using hi
+    simp [g, List.getD_eq_getElem?_getD, List.getElem?_eq_getElem hi']
+  have h2 : ((List.range n).map fun k => (gather 0 d p).getD k 0 * w.getD k 0)
+      = (List.range n).map (fun k => g (p.getD k 0)) := by
+    apply List.map_congr_left
+    intro k hk
+    have hk' : k < n := by simpa using hk
+    simp only [g]
+    rw [gather_getD 0 d hp hd hk', hinv k hk']
+  rw [h1, h2, ← hpl, map_range_getD g p, hpl]
+  exact (List.Perm.map g hp).sum_nat.symm
+
+/-- position formula in terms of digits: relabel the digits, flatten with the new axis lengths -/
+theorem npos_eq_flat {n : Nat} {p ip : List Nat} (hp : IsPerm n p) (hipl : ip.length = n) (hinv : Inv n p ip)
+    (ns : List Nat) (hns : ns.length = n) (pos : Nat) :
+    npos (rowMajor (gather 0 ns p)) (rowMajor ns) ns ip pos
+      = flat (gather 0 ns p) (gather 0 (digits ns pos) p) := by
+  rw [npos_eq_wsum _ _ _ _ (by omega), flat_eq_wsum]
+  exact wsum_reindex hp hipl hinv _ _ (by simp [digits_length, hns])
+    (by simp [rowMajor_length, gather_length, hp.length])
+
+theorem inBox_gather {n : Nat} {p : List Nat} (hp : IsPerm n p) {idx ns : List Nat} (hns : ns.length = n)
+    (h : InBox idx ns) : InBox (gather 0 idx p) (gather 0 ns p) := by
+  obtain ⟨hl, hb⟩ := h
+  refine ⟨by simp [gather_length], ?_⟩
+  intro k hk
+  have hk' : k < n := by simpa [gather_length, hp.length] using hk
+  rw [gather_getD 0 idx hp (by omega) hk', gather_getD 0 ns hp hns hk']
+  exact hb _ (by rw [hns]; exact hp.getD_lt hk')
+
+theorem prodL_gather {n : Nat} {p : List Nat} (hp : IsPerm n p) {ns : List Nat} (hns : ns.length = n) :
+    prodL (gather 0 ns p) = prodL ns := prodL_perm (gather_perm 0 ns hp hns)
+
 end PsV.Permute
